@@ -306,6 +306,9 @@ func tokenBridgeUpdateRefundAddress(
 	if err != nil {
 		return nil, errors.New("invalid refund address encoding (expected hex)")
 	}
+	if len(address) > math.MaxUint16 {
+		return nil, errors.New("invalid refund address (too long)")
+	}
 	v := vaa.CreateGovernanceVAA(governanceChainId, governanceEmitterAddress, timestamp, nonce, sequence, targetChainId, guardianSetIndex,
 		vaa.BodyTokenBridgeUpdateRefundAddress{
 			NewRefundAddress: address,
